@@ -17,10 +17,12 @@ PROPS = {
         "level": "fault_enumeration",
         "technique": "deterministic simulation: crash-point enumeration over the bucket operation sequence + seeded transient faults",
         "design_ref": "DESIGN.md §6 C28",
-        "quick": {"runs": 400, "seconds": 60},
+        "quick": {"runs": 2000, "seconds": 60},
         "thorough": {"runs": 12000, "seconds": 900},
-        "rule": "one evaluation = one generated scenario (upload | shipper sync | replication | deletion; 1-2 blocks, 1-3 segment files, "
-                "upload concurrency 1-4) executed fault-free, then re-executed once per crash point (actor killed at its k-th bucket "
+        "rule": "one evaluation = one generated scenario (upload | shipper sync | replication | deletion | replication racing with the deletion "
+                "of the origin block | two cleaners deleting one block, one of them possibly crashing; 1-2 blocks, 1-3 segment files, upload "
+                "concurrency 1-4; in a third of the upload/shipper scenarios the local meta.json already carries a file list inherited from a "
+                "parent block). The two race scenarios run six seeded interleavings each; the others are executed fault-free, then re-executed once per crash point (actor killed at its k-th bucket "
                 "operation for every k, then restarted until completion) and twice with seeded transient errors before/after the effect; "
                 "the visibility invariant is evaluated after every bucket operation. distinct = distinct hash of the full event log of "
                 "the evaluation; non-trivial = the reference execution issued at least one bucket operation.",
@@ -37,7 +39,7 @@ PROPS = {
         "level": "fault_enumeration",
         "technique": "deterministic simulation: crash-point enumeration over Shipper.Sync's bucket operations, restart histories, seeded transient faults",
         "design_ref": "DESIGN.md §6 C35",
-        "quick": {"runs": 300, "seconds": 60},
+        "quick": {"runs": 800, "seconds": 60},
         "thorough": {"runs": 8000, "seconds": 900},
         "rule": "one evaluation = one generated local block set (1-4 blocks + 0-2 appearing later; levels 1-3, empty/non-empty, with/without Thanos "
                 "meta section), shipper options (upload-compacted, out-of-order uploads, upload concurrency) and restart behaviour (shipper meta file "
@@ -60,7 +62,7 @@ PROPS = {
         "level": "fault_enumeration",
         "technique": "deterministic simulation of compactor + store-gateway views on a simulated bucket and fake clock; crash-point enumeration with restart to quiescence; sample-level oracle",
         "design_ref": "DESIGN.md §6 C29",
-        "quick": {"runs": 64, "seconds": 80},
+        "quick": {"runs": 96, "seconds": 80},
         "thorough": {"runs": 2000, "seconds": 1500},
         "rule": "one evaluation = one generated deployment (layout aligned | replicas+vertical dedup | overlapping+vertical | two groups; 2-10 real TSDB "
                 "blocks; delays = cmd/thanos defaults or drawn; 1-2 store-gateway views with periodic sync; compaction levels 2h/8h or 2h/4h/8h) run to "
@@ -90,11 +92,12 @@ PROPS = {
         "level": "exploration",
         "technique": "deterministic simulation: seeded interleavings of compactor steps and store-gateway syncs at bucket-operation granularity on a fake clock, random compactor crashes, sample-level availability oracle",
         "design_ref": "DESIGN.md §6 C34",
-        "quick": {"runs": 320, "seconds": 70},
+        "quick": {"runs": 640, "seconds": 70},
         "thorough": {"runs": 12000, "seconds": 1200},
         "rule": "one evaluation = one generated deployment (as C29: 4 layouts, real TSDB blocks, delays = cmd/thanos defaults or drawn with "
                 "ignoreDeletionMarksDelay <= deleteDelay/2, 1-2 gateways with sync interval 16/50/90% of (deleteDelay - ignoreDeletionMarksDelay - skew), "
-                "per-gateway phase and clock skew of +-10% of the ignore delay) run once to quiescence under one seeded schedule; a third of the runs kill "
+                "per-gateway phase and clock skew of +-10% of the ignore delay) run once to quiescence under one seeded schedule, with seeded extra gateway syncs right after the compactor uploaded a data file of a "
+                "block (i.e. between the files and the meta.json of one upload); a third of the runs kill "
                 "the compactor at random bucket operations (3 or 10 per mille) and restart it. Oracle after every bucket mutation and every gateway sync: "
                 "every original sample is in some gateway's current view of intact blocks; at quiescence exactly once per gateway. "
                 "distinct = distinct event-log hash; non-trivial = at least one compaction was planned.",
@@ -112,7 +115,7 @@ PROPS["C33"] = {
     "level": "fault_enumeration",
     "technique": "deterministic simulation: every bucket read inside a compactor meta sync failed in turn; operation-log oracle on the rest of that iteration",
     "design_ref": "DESIGN.md §6 C33",
-    "quick": {"runs": 48, "seconds": 70},
+    "quick": {"runs": 96, "seconds": 70},
     "thorough": {"runs": 1500, "seconds": 1200},
     "rule": "one evaluation = one generated deployment (as C29) executed fault-free to enumerate the bucket reads performed inside the compactor's "
             "meta syncs (listing, exists/get of meta.json, deletion-mark.json, no-compact-mark.json), then re-executed with the k-th such read failing "
